@@ -22,7 +22,7 @@ Adds == {[op |-> "add", m |-> m, raw |-> a[1], p |-> a[2], prio |-> pr] :
            m \in 1..2, a \in {<<"x", 1>>, <<"X", 2>>, <<"y", 2>>, <<"z", 3>>, <<"b1", 1>>}, pr \in BOOLEAN}      \* "b1": the name of a built-in
 \* ("d" stands for the literal method name "default")
 Reqs == {<<"", "a">>, <<"", "b">>, <<"", "c">>, <<"", "s">>, <<"", "d">>, <<"", "q">>, <<"", "k">>, <<"X", "a">>, <<"x", "c">>, <<"y", "b">>, <<"z", "a">>,
-         <<"b2", "s">>, <<"b2", "t">>, <<"q", "a">>}
+         <<"b2", "s">>, <<"b2", "t">>, <<"q", "a">>, <<"x", "d">>}       \* ("x/default": the named plug-in does not support it)
 \* (every request on the first manager, the bare-name and one qualified request on the second)
 Gets == {[op |-> "get", m |-> 1, plug |-> r[1], meth |-> r[2]] : r \in Reqs}
         \cup {[op |-> "get", m |-> 2, plug |-> r[1], meth |-> r[2]] : r \in {<<"", "a">>, <<"", "b">>, <<"", "c">>, <<"", "s">>, <<"X", "a">>, <<"b2", "s">>}}
